@@ -606,10 +606,8 @@ func GenFragType(r *rand.Rand, depth int) string {
 		flag := ""
 		if r.Intn(3) == 0 {
 			flag = []string{", true", ", false"}[r.Intn(2)]
-			for i := range xs {
-				if !isASCII(xs[i]) {
-					xs[i] = "'Ab'"
-				}
+			if r.Intn(3) == 0 {
+				xs[r.Intn(len(xs))] = []string{"'\u00c9cole'", "'\u0130x'", "'\u01c5'", "'\u03a3\u03c3\u03c2'", "'\u212a'", "'Stra\u00dfe'", "'\U00010400'"}[r.Intn(7)]
 			}
 		}
 		switch r.Intn(3) {
@@ -897,11 +895,3 @@ var StructValueTypes = []string{"Integer", "Any", "Unit", "Undef", "Default", "D
 	"String[1]", "Boolean[true]", "Regexp[/a/]", "Pattern[/a/]", "Array[0, 0]", "Hash[0, 0]", "Struct[{a => Undef}]", "Struct[{Optional[a] => Undef}]", "Struct[{a => Optional[Struct]}]",
 	"Optional[Unit]", "Optional[NotUndef]", "Optional[Struct[{b => Any}]]"}
 
-func isASCII(s string) bool {
-	for _, c := range s {
-		if c >= 0x80 {
-			return false
-		}
-	}
-	return true
-}
